@@ -156,6 +156,36 @@ def systematic_inputs(ents, rng, auto, nperms, extra_defs=()):
     return out
 
 
+def subset_inputs(ents, rng, maxfields, extra_defs=()):
+    """C08: every way of deleting, nulling or corrupting any subset of the keys of the small structs: each field independently
+    present-and-valid / absent / null / of a wrong kind, under two spellings of the keys"""
+    import itertools
+    out = []
+    pg = coregen.PayloadGen(rng, extra_defs)
+    auto = {"prefix_cap": 2, "all_upto": 0, "random": 0, "builtin": True}
+    forms = [lambda f: coregen.G.unraw(f["ident"]),
+             lambda f: f["rename"] if f["rename"] is not None else coregen.camel(coregen.G.unraw(f["ident"]))]
+    for eid, ty in ents:
+        if ty[0] != "ref":
+            continue
+        d = pg.defs[ty[1]]
+        if d["kind"] != "struct" or d.get("cfrom") or not (1 <= len(d["fields"]) <= maxfields):
+            continue
+        for fm in forms:
+            for states in itertools.product(("ok", "absent", "null", "bad"), repeat=len(d["fields"])):
+                ms = []
+                for f, st in zip(d["fields"], states):
+                    fty = f["from"]["ty"] if f.get("from") else f["ty"]
+                    if st == "ok":
+                        ms.append((fm(f), pg.gen(fty, 0.0)))
+                    elif st == "null":
+                        ms.append((fm(f), coregen.vnull()))
+                    elif st == "bad":
+                        ms.append((fm(f), coregen.vmap([("q", coregen.vseq([]))])))     # no field of the catalogue's small structs accepts this
+                out.append({"ty": eid, "val": coregen.vmap(coregen.dedup(ms)), "src": "json", "grp": "start", "perm": False, "auto": auto, "perms": []})
+    return out
+
+
 def gen_inputs(pid, tier, seed, extra_defs=(), extra_entries=()):
     rng = random.Random(seed * 7919 + sum(ord(c) for c in pid))
     ents, table = coregen.entries(extra_defs, extra_entries)
@@ -181,6 +211,8 @@ def gen_inputs(pid, tier, seed, extra_defs=(), extra_entries=()):
             recs.append(rec)
     recs += systematic_inputs(ents, rng, dict(prof["auto"], all_upto=min(prof["auto"]["all_upto"], 3), random=min(prof["auto"]["random"], 1)),
                               1 if prof["perms"] else 0, extra_defs)
+    if pid == "C08" or (tier == "thorough" and pid in ("C02", "C07")):
+        recs += subset_inputs(ents, rng, 3 if tier == "quick" else 4, extra_defs)
     if pid == "C15":
         recs += collide_inputs(ents, rng)
     if pid == "C12":
